@@ -37,6 +37,7 @@ type EntrySpec struct {
 	AllowPanic  bool              `json:"allow_panic"`
 	ThoroughOnly bool             `json:"thorough_only"`
 	InlineGo    []string          `json:"inline_go"`
+	DeferGo     []string          `json:"defer_go"`
 	EnvChans    bool              `json:"env_chans"`
 	Tags        []string          `json:"tags"`
 	NoInit      bool              `json:"no_init"`
@@ -303,6 +304,8 @@ func (ex *Exec) runPath(st *State) (succ []*State) {
 				succ = ex.forkBool(st, x.cond)
 			case concReq:
 				succ = ex.forkValues(st, x.t, x.max)
+			case yieldReq:
+				succ = []*State{st} // a pending goroutine was scheduled; the interrupted instruction runs again after it
 			case abort:
 				if st.status == Blocked && x.kind == "stop" {
 					// st.block(): the goroutine under analysis waits forever on this path; the driver turns that
@@ -794,6 +797,38 @@ func (ex *Exec) doReturn(st *State, fr *Frame, res Value) {
 
 type intrinsic func(ex *Exec, st *State, args []Value, site ssa.CallInstruction) Value
 
+// deferred goroutines (spec defer_go)
+type pendingGo struct {
+	fn   FuncV
+	args []Value
+}
+
+type yieldReq struct{}
+
+// runPendingGo schedules the oldest pending goroutine: its frame is pushed on top of the current one and,
+// because the frame is a native continuation, its return does not advance the interrupted instruction,
+// which therefore executes again. Reports whether a goroutine was scheduled.
+func (ex *Exec) runPendingGo(st *State) bool {
+	if len(st.pendingGo) == 0 {
+		return false
+	}
+	g := st.pendingGo[0]
+	st.pendingGo = append([]pendingGo(nil), st.pendingGo[1:]...)
+	f := g.fn.Fn
+	if ex.Spec != nil {
+		if stub, ok := ex.Spec.Stubs[f.String()]; ok {
+			if sf := ex.lookupHarnessFn(stub); sf != nil {
+				f = sf
+			}
+		}
+	}
+	nf := ex.newFrame(f, g.args, g.fn.Binds, nil)
+	nf.Native = "goresume"
+	st.frames = append(st.frames, nf)
+	st.events = append(st.events, Event{Kind: "gorun:" + f.String()})
+	return true
+}
+
 // notHandled is returned by intrinsics that decline a call: the real body is interpreted.
 type notHandled struct{}
 
@@ -1167,6 +1202,17 @@ func (ex *Exec) execGo(st *State, fr *Frame, in *ssa.Go) {
 		}
 	}
 	st.events = append(st.events, Event{Kind: "go:" + name, Args: args})
+	if ex.Spec != nil && fn.Fn != nil {
+		for _, p := range ex.Spec.DeferGo {
+			if p == name {
+				// a goroutine that runs as late as the goroutine under analysis allows: when that one blocks
+				// (st.block), waits for a WaitGroup, or when the harness calls vRunPending
+				st.pendingGo = append(append([]pendingGo(nil), st.pendingGo...), pendingGo{fn, args})
+				fr.IP++
+				return
+			}
+		}
+	}
 	if inline {
 		ex.callValue(st, fn, args, nil, in)
 		return
